@@ -138,6 +138,14 @@ func c20Mappings(level int) []c20Mapping {
 			{ID: ids[2], Package: "example.com/m/b/types", Output: "b/types/z.go"}, {ID: ids[3], Package: "example.com/m/b/types", Output: "b/types/w.go"}}
 		return c
 	}})
+	// the passes that run once per generator (formatters) meet several output files: every file needs its own imports
+	ms = append(ms, c20Mapping{"own-files+extra-imports", func(ids []string) genlab.Cfg {
+		c := base()
+		c.ExtraImports = true
+		c.Mappings = []genlab.Mapping{{ID: ids[0], Package: "example.com/m/p", Output: "p/a.go"}, {ID: ids[1], Package: "example.com/m/p", Output: "p/b.go"},
+			{ID: ids[2], Package: "example.com/m/q", Output: "q/c.go"}, {ID: ids[3], Package: "example.com/m/q", Output: "q/d.go"}}
+		return c
+	}})
 	if level >= 1 {
 		ms = append(ms,
 			c20Mapping{"one-file", func(ids []string) genlab.Cfg { c := base(); c.Output = "all/one.go"; return c }},
